@@ -103,7 +103,7 @@ impl Display for YearRange {
     fn fmt(&self, f: &mut std::fmt::Formatter<'_>) -> std::fmt::Result {
         write!(f, "{}", self.range.start().deref())?;
 
-        if self.range.start() != self.range.end() {
+        if self.range.start() != self.range.end() || self.step != 1 {
             write!(f, "-{}", self.range.end().deref())?;
         }
 
